@@ -5,46 +5,75 @@ import JunoModel.C20.ProofsEntries
 import JunoModel.C20.ProofsRefine
 import JunoModel.C20.ProofsLastUpd
 import JunoModel.C20.ProofsAlias
+import JunoModel.C20.ProofsMisc
 /-!
 C20 — property theorems (statements only; helper lemmas are in `Proofs*.lean`).
 Every theorem in this module is an obligation listed in evidence/C20.json with its axioms.
 
-The model (`Model.lean`, `Heap.lean`) transcribes `sync/preconfirmed/chain_storage.go`, the
-adapters that build its entries (`sn2core.AdaptPreConfirmedBlock/WithDelta`,
-`core.StateDiff.Merge`) and `core/pending/state.go`.
+The model (`Model.lean`, `Heap.lean`, `Alias.lean`) transcribes
+`sync/preconfirmed/chain_storage.go`, the adapters that build its entries
+(`sn2core.AdaptPreConfirmedBlock/WithDelta`, `core.StateDiff.Merge`) and `core/pending/state.go`.
 
 `run ops` is the content of `ChainStorage.inner` after ANY history `ops` of writer calls
 (`ApplyUpdate` with any update variant — full block, appended-transactions delta, no-change —
-any target height incl. gaps / inner slots / below the chain, any `baseTxCount`, any
-`oldestPreConf`, any classes, rejected or not; `AdvanceTo` with any argument, i.e. head advances
-and reverts), starting from `NewChainStorage()`. No assumption is made about the caller being
-well behaved. `snapshotFor s (head+1)` is the view a reader gets for canonical head `head`
+any target height incl. gaps / inner slots / below the chain / block 0 / `2^64-1`, any
+`baseTxCount`, any `oldestPreConf`, any classes, rejected or not; `AdvanceTo` with any argument,
+i.e. head advances and reverts), starting from `NewChainStorage()`. No assumption is made about the
+caller being well behaved. The only hypothesis on histories is `ops.length < 2^64` (`U64`): a chain
+with oldest slot 0 and tip `2^64-1` is where `tip()+1` wraps in the code, and it takes `2^64`
+operations to build. `snapshotFor s (head+1)` is the view a reader gets for canonical head `head`
 (`Synchronizer.PreConfirmedChain` calls `SnapshotForBlock(height+1)`).
+
+What is NOT here (see notes/C20.md "Coverage of the property text"): interleavings of concurrent
+readers with the writer (exercised, not proved); immutability of the REAL nodes and entries (the
+pointer-level statements below are about two transcriptions; on the real objects it is checked by
+re-hashing, pointer-identity oracles and a source guard).
 -/
 namespace Juno.C20.Props
 open Juno.C20
 
-/-! ## 1. contiguity and alignment -/
+/-! ## 1. contiguity, alignment, maximality -/
 
 /-- **Every view is a gap-free run starting exactly one above the head it was taken for.**
-After any history of writer operations, the view for head `head` yields exactly `Length()`
-entries and their block numbers, oldest first, are `head+1, head+2, …, head+Length()`.
-(The empty view is the case `Length() = 0`.) -/
-theorem snapshot_contiguous_aligned (ops : List Op) (head : Nat) :
+After any history of fewer than `2^64` writer operations, the view for head `head` yields exactly
+`Length()` entries and their block numbers, oldest first, are `head+1, …, head+Length()`.
+(Alone this would be satisfied by an always-empty view: see `snapshot_maximal`.) -/
+theorem snapshot_contiguous_aligned (ops : List Op) (hops : ops.length < U64) (head : Nat) :
     let v := snapshotFor (run ops) (head + 1)
     v.newestFirst.length = v.length ∧
     v.oldestFirst.map (·.number) = List.range' (head + 1) v.length :=
-  snapshot_spec (run_wf ops) (head + 1)
+  snapshot_spec (run_wf ops hops) (head + 1)
+
+/-- **Maximality.** The view for block `b` (any `b`, 0 included) is non-empty exactly when `b` is
+a slot of the stored chain, and then it has `tip - b + 1` entries and its newest entry is the
+stored chain's newest entry: a view never drops entries at either end. With nothing stored every
+view is empty. -/
+theorem snapshot_maximal (ops : List Op) (hops : ops.length < U64) (b : Nat) :
+    match run ops with
+    | none => (snapshotFor none b).length = 0
+    | some cur =>
+      (cur.oldest ≤ b ∧ b ≤ cur.tip →
+        (snapshotFor (some cur) b).length = cur.tip - b + 1 ∧
+        (snapshotFor (some cur) b).newestFirst.head? = cur.nodes.head?) ∧
+      (¬ (cur.oldest ≤ b ∧ b ≤ cur.tip) → (snapshotFor (some cur) b).length = 0) := by
+  have h := run_wf ops hops
+  cases hr : run ops with
+  | none => rfl
+  | some cur =>
+    rw [hr] at h
+    have := Juno.C20.snapshot_maximal (cur := cur) h b
+    exact ⟨fun hb => ⟨(this.1 hb).1, (this.1 hb).2.2⟩, this.2⟩
 
 /-- The stored chain itself is always well formed: its linked list is nil-terminated after
 exactly `length` nodes (so no iterator or `replaceSlot` walk can run off the list), it is never
-empty when published, and it is gap-free; in particular no `uint64` subtraction of
-`oldestPreConf()` / `SnapshotForBlock` / `AdvanceTo` ever wraps. -/
-theorem stored_chain_wellformed (ops : List Op) :
+empty when published, it is gap-free, and `length-1 ≤ tip`: the subtractions of
+`oldestPreConf()` / `SnapshotForBlock` / `AdvanceTo` never wrap. (The ADDITION `tip()+1` does wrap
+at `tip = 2^64-1`: `updates_at_max_tip_are_rejected`.) -/
+theorem stored_chain_wellformed (ops : List Op) (hops : ops.length < U64) :
     match run ops with
     | none => True
     | some r => r.nodes.length = r.length ∧ 0 < r.length ∧ Desc r.nodes ∧ r.length - 1 ≤ r.tip := by
-  have h := run_wf ops
+  have h := run_wf ops hops
   cases hr : run ops with
   | none => trivial
   | some r =>
@@ -56,118 +85,133 @@ theorem stored_chain_wellformed (ops : List Op) :
 theorem iterators_agree (r : Reader) : r.oldestFirst = r.newestFirst.reverse :=
   r.oldestFirst_eq
 
-/-! ## 2. immutability of what a reader holds -/
+/-- **`uint64` boundary 1.** On a chain whose tip is `2^64-1`, `tip()+1` is 0: every update that
+passes the alignment and below-oldest checks and targets a block ≥ 1 — a new round for the tip, a
+delta, a no-change — is rejected as a gap; the chain can only be realigned or dropped. (Same
+behaviour as the Go code; compared on generated boundary histories.) -/
+theorem updates_at_max_tip_are_rejected {cur : Reader} (hpos : 0 < cur.length) (htip : cur.tip = U64 - 1)
+    (u : Update) (b t o : Nat) (c : AMap Felt Nat)
+    (hal : cur.oldest = o) (hlo : ¬ b < cur.oldest) (hb : 1 ≤ b) :
+    computeUpdate (some cur) u b t o c = .err .gap :=
+  update_at_max_tip hpos htip u b t o c hal hlo hb
 
-/-- **A view never changes afterwards.** Stated on the pointer-level model (`Heap.lean`: nodes
-live in an allocation-only heap, a view is a head address and a length): the entries reached
-through a view taken after history `ops`, dereferenced in the heap as it is after ANY further
-history `ops'` (updates, head advances, reverts), are the entries it had when it was taken.
-(That the entries' own contents are not written to is outside a functional model; the harness
-re-hashes every view it ever obtained after every later operation.) -/
-theorem snapshot_stable (ops ops' : List Op) (b : Nat) :
-    (hsnapshotFor (hrun ops) b).view (hrun (ops ++ ops')).heap =
-    (hsnapshotFor (hrun ops) b).view (hrun ops).heap :=
-  held_view_stable ops ops' b
+/-- **`uint64` boundary 2.** A view whose oldest slot is block 0 (a chain bootstrapped before any
+head exists) asks `StateAtBlockNumber(2^64-1)` for its base: state reads through it fail with the
+base's error. -/
+theorem chain_at_block_zero_has_no_base {r : Reader} {b : Nat} (ho : r.oldest = 0)
+    (hc : r.contains b = true) (baseAt : Nat → Option Base) (hnone : baseAt (U64 - 1) = none) :
+    stateAt r b baseAt = .error .noBase :=
+  state_below_block_zero ho hc baseAt hnone
 
-/-- **The pointer-level model refines the list model**: after any history, what the published
-head address denotes in the heap (the whole linked list down to nil, and the length field) is
-exactly the list-model storage. Every theorem about `run ops` is therefore a theorem about the
-heap. -/
+/-! ## 2. what a reader holds
+
+The two statements of this section relate the pointer-level transcription (`Heap.lean`: nodes in a
+heap whose only operation is allocation, sharing as in the Go code) to the list model. They show
+that the sharing the code uses (`extend` points at the old head, `replaceSlot` at the replaced
+node's parent, `rebuild` copies) denotes exactly the list-model storage, and that a held
+`(head, length)` keeps denoting what it denoted. That the Go code never assigns to a field of a
+published node is the PREMISE of `Heap.lean`, not a consequence: it is checked on the source
+(harness: no assignment to `.parent` / `.preconfirmed` in chain_storage.go) and on the real objects
+(re-hash of every view ever obtained, pointer freshness of every published entry). -/
+
+/-- The pointer-level transcription denotes the list-model storage after every history. -/
 theorem heap_refines_model (ops : List Op) : (hrun ops).abs = run ops :=
   hrun_refines ops
 
-/-- **Immutability, stated against the model view**: the entries a reader reaches through a view
-it took after `ops` — dereferenced at any later time, after any further writer operations `ops'` —
-are the entries of the model view `snapshotFor (run ops) b` at the time it was taken (which
-`snapshot_contiguous_aligned` describes). -/
+/-- In the pointer-level transcription, the entries reached through a view taken after `ops` and
+dereferenced after any further writer operations `ops'` are the entries of the model view
+`snapshotFor (run ops) b` at the time it was taken. -/
 theorem held_view_is_the_view_taken (ops ops' : List Op) (b : Nat) :
     (hsnapshotFor (hrun ops) b).view (hrun (ops ++ ops')).heap = (snapshotFor (run ops) b).newestFirst ∧
     (hsnapshotFor (hrun ops) b).length = (snapshotFor (run ops) b).length := by
   rw [held_view_stable ops ops' b]
   exact hsnapshot_view ops b
 
-/-- **`Merge` writes only into maps its receiver owns** (map-object model `Alias.lean`: every Go
-map is an object with an address; `w` is any watermark): if all maps of the receiver — the outer
-`StorageDiffs` map, every inner map it refers to, the single-level maps — were allocated at or
-above `w`, then after `Merge(incoming)`, for ANY `incoming`, every object below `w` is unchanged
-and the receiver still owns all it refers to (incoming inner maps are cloned, never adopted). -/
+/-- **`Merge` writes only into maps its receiver owns** (map-object model `Alias.lean`, which HAS an
+in-place write: every Go map is an object with an address; `w` is any watermark): if all maps of the
+receiver — the outer `StorageDiffs` map, every inner map it refers to, the single-level maps — were
+allocated at or above `w`, then after `Merge(incoming)`, for ANY `incoming`, every object below `w`
+is unchanged and the receiver still owns all it refers to (incoming inner maps are cloned, never
+adopted). The aliasing this predicts — every map of a freshly built diff is a new object — is
+observed on the real maps by pointer identity in the harness. -/
 theorem merge_writes_only_owned_maps {w : Nat} {m : Alias.Mem} {d : Alias.ADiff} (inc : Alias.ADiff)
     (h : Alias.Owned w m d) :
     Alias.Unch w m (Alias.merge m d inc).1 ∧
     Alias.Owned w (Alias.merge m d inc).1 (Alias.merge m d inc).2 :=
   Alias.merge_frame inc h
 
-/-- **The adapters and state builders never write to a published map.** The loop
-`d := EmptyStateDiff(); for x in xs { d.Merge(x) }` — the body of `AdaptPreConfirmedBlock` (xs = the
-per-transaction diffs), of `AdaptPreConfirmedWithDelta` (xs = the CURRENT, published entry's diff
-followed by the appended transactions' diffs) and of `PreConfirmedStateAt` /
-`PreConfirmedStateBeforeIndexAt` (xs = diffs of the view's published entries) — run on ANY memory
-with ANY incoming diffs leaves every map object that existed before the call untouched, and the
-diff it returns refers only to maps allocated during the call (so publishing it shares nothing
-with what readers already hold). -/
+/-- **The squash loop never writes to a pre-existing map and returns only fresh maps.**
+`d := EmptyStateDiff(); for x in xs { d.Merge(x) }` — the body of `AdaptPreConfirmedBlock`, of
+`AdaptPreConfirmedWithDelta` (xs = the CURRENT, published entry's diff followed by the appended
+transactions' diffs) and of `PreConfirmedStateAt` / `BeforeIndexAt` — on ANY memory with ANY
+incoming diffs. Not covered by the object model: `NewClasses` maps, slices, `*felt.Felt` values. -/
 theorem adapters_never_write_published_maps (m : Alias.Mem) (xs : List Alias.ADiff) :
     Alias.Unch m.length m (Alias.squash m xs).1 ∧
     Alias.Owned m.length (Alias.squash m xs).1 (Alias.squash m xs).2 :=
   Alias.squash_frame m xs
 
-/-- The previous theorem is about the clone in `Merge`: the same loop with the incoming inner
-storage map adopted instead of cloned (the seeded defect of the self-test, not juno's code) writes
-into a published map. -/
-theorem frame_depends_on_clone :
-    ∃ (m : Alias.Mem) (xs : List Alias.ADiff) (a : Nat),
-      a < m.length ∧ (Alias.squashNoClone m xs).1[a]? ≠ m[a]? :=
-  Alias.adopting_inner_maps_breaks_frame
-
-/-- Writer operations only allocate: the heap after an operation is the heap before it plus
-fresh nodes (no published node is overwritten or unlinked). -/
-theorem writer_only_allocates (ops : List Op) (op : Op) :
-    ∃ fresh, (hrun (ops ++ [op])).heap = (hrun ops).heap ++ fresh := by
-  have := (hstep_grows (hrun_ok ops) op).1
-  simpa [hrun, List.foldl_append] using this
+/-- **What "never changes" means for state reads.** Two calls of `PreConfirmedStateAt` on the same
+view — at any two times, i.e. with any two resolvers of `StateAtBlockNumber` (the head may have
+advanced or reverted in between) — agree on "not found", and when both find their base they carry
+the SAME merged diff, classes and block number; only the base reader is that of its own time (it
+is re-resolved by NUMBER on every call: after a reorg that replaces the canonical block below the
+view, the same held view reads over the new block). -/
+theorem held_view_state_over_time (r : Reader) (b : Nat) (baseAt₁ baseAt₂ : Nat → Option Base) :
+    (stateAt r b baseAt₁ = .error .notFound ↔ stateAt r b baseAt₂ = .error .notFound) ∧
+    ∀ p₁ p₂, stateAt r b baseAt₁ = .ok p₁ → stateAt r b baseAt₂ = .ok p₂ →
+      p₁.diff = p₂.diff ∧ p₁.classes = p₂.classes ∧ p₁.blockNumber = p₂.blockNumber ∧
+      some p₁.head = baseAt₁ (pred64 r.oldest) ∧ some p₂.head = baseAt₂ (pred64 r.oldest) :=
+  stateAt_time_independent r b baseAt₁ baseAt₂
 
 /-! ## 3. the state read through a view is a true overlay -/
 
 /-- **Overlay = fold of the diffs, for any list of blocks.** Let `es` be any list of blocks
 (oldest first) whose diffs are well-formed in sequence on the canonical state `canon`
-(`ValidChain`: a contract is deployed once; class replacement, nonce and storage updates
-only touch contracts deployed by then). Then every read — class hash, nonce, storage slot
-(including slots written to zero and untouched slots of contracts deployed inside the view),
-class definition, compiled class hash v1/v2 — through the `pending.State` built from the MERGED
-diffs over the reader of `canon` equals the same read on the canonical state obtained by
-applying the blocks one after the other. -/
+(`ValidChain`). Then every read through the `pending.State` built from the MERGED diffs over the
+reader of `canon` equals the same read on the state obtained by applying the blocks one after the
+other. Content: merging commutes with sequential application (for one block both sides are the
+same precedence table by definition; that this table is what juno's canonical state does is the
+harness' second-node oracle, not this theorem). The class table of the specification side is the
+entries' `NewClasses`: whether the definitions of declared classes are PRESENT on the entry is
+outside it. -/
 theorem overlay_equals_fold (canon : St) (es : List PreConf) (bn : Nat) (hv : ValidChain canon es) :
     ReadsEq (overlayOf es canon.reader bn) (applyBlocks canon es).reader :=
   overlay_reads canon es bn hv
 
-/-- **`PreConfirmedStateAt` on a reader's view.** After any history, for the view of head
-`head`: a block number inside the view gets the overlay of exactly the view's blocks
-`head+1 … b` (oldest first) over `StateAtBlockNumber(head)`; any other block number gets
-`ErrPreConfirmedNotFound`. -/
-theorem stateAt_merges_prefix (ops : List Op) (head b : Nat) (baseAt : Nat → Base) :
+/-- **`PreConfirmedStateAt` on a reader's view.** After any history, for the view of head `head`:
+a block number outside the view is `ErrPreConfirmedNotFound`; inside it the call fails with the
+base's error when `StateAtBlockNumber(head)` fails, and otherwise returns the overlay of exactly the
+view's blocks `head+1 … b` (oldest first) over that base. -/
+theorem stateAt_merges_prefix (ops : List Op) (hops : ops.length < U64) (head b : Nat)
+    (baseAt : Nat → Option Base) :
     let v := snapshotFor (run ops) (head + 1)
     ((head + 1 ≤ b ∧ b ≤ head + v.length) →
-      stateAt v b baseAt = some (overlayOf (v.oldestFirst.take (b - head)) (baseAt head) b)) ∧
-    (¬ (head + 1 ≤ b ∧ b ≤ head + v.length) → stateAt v b baseAt = none) :=
-  stateAt_spec (run_wf ops) head b baseAt
+      stateAt v b baseAt =
+        match baseAt head with
+        | none => .error .noBase
+        | some base => .ok (overlayOf (v.oldestFirst.take (b - head)) base b)) ∧
+    (¬ (head + 1 ≤ b ∧ b ≤ head + v.length) → stateAt v b baseAt = .error .notFound) :=
+  stateAt_spec (run_wf ops hops) head b baseAt
 
-/-- **The property's overlay clause, end to end.** After any history, the state read through the
-view of head `head` at one of its blocks `b` equals the canonical state below the view (`canon`,
-the state at `head`) overlaid with the state diffs of the view's blocks up to `b`, in order. -/
-theorem view_state_equals_canonical_overlay (ops : List Op) (head b : Nat) (canon : St)
-    (baseAt : Nat → Base) (hbase : baseAt head = canon.reader) :
+/-- **The property's overlay clause, end to end.** After any history, if the canonical state at
+`head` is available (`baseAt head = some canon.reader`), the state read through the view of `head`
+at one of its blocks `b` equals `canon` overlaid with the state diffs of the view's blocks up to `b`,
+in order. -/
+theorem view_state_equals_canonical_overlay (ops : List Op) (hops : ops.length < U64) (head b : Nat)
+    (canon : St) (baseAt : Nat → Option Base) (hbase : baseAt head = some canon.reader) :
     let v := snapshotFor (run ops) (head + 1)
     (head + 1 ≤ b ∧ b ≤ head + v.length) →
     ValidChain canon (v.oldestFirst.take (b - head)) →
-    ∃ p, stateAt v b baseAt = some p ∧
+    ∃ p, stateAt v b baseAt = .ok p ∧
       ReadsEq p (applyBlocks canon (v.oldestFirst.take (b - head))).reader := by
   intro v hb hvalid
-  refine ⟨_, (stateAt_spec (run_wf ops) head b baseAt).1 hb, ?_⟩
-  rw [hbase]
-  exact overlay_reads canon _ b hvalid
+  have := (stateAt_spec (run_wf ops hops) head b baseAt).1 hb
+  rw [hbase] at this
+  exact ⟨_, this, overlay_reads canon _ b hvalid⟩
 
-/-- Every entry the storage ever publishes is internally consistent, for all histories (full
-blocks, deltas on deltas, class-only updates): its block-level state diff is the merge, in order,
-of its per-transaction diffs, and it has as many receipts and per-transaction diffs as
+/-- Every entry the storage ever publishes is internally consistent, for all histories: its
+block-level state diff is the merge, in order, of ALL its per-transaction diffs (whatever the
+transactions' execution status), and it has as many receipts and per-transaction diffs as
 transactions (`TransactionCount` included). -/
 theorem entries_consistent (ops : List Op) :
     match run ops with
@@ -183,16 +227,48 @@ theorem entries_consistent (ops : List Op) :
     have := h e he
     exact ⟨this.diff, this.ndiffs, this.nreceipts, this.count⟩
 
-/-- **`PreConfirmedStateBeforeIndexAt` agrees with `PreConfirmedStateAt`.** After any history, for
-every block `b` of a reader's view, the state "before transaction index `len(txs)`" of that block
-(all its per-transaction diffs layered over the older blocks of the view) is exactly the state at
-block `b`. -/
-theorem state_before_last_index_is_state_at (ops : List Op) (head b : Nat) (baseAt : Nat → Base) :
+/-- **`PreConfirmedStateBeforeIndexAt`, every index.** After any history, for the view of `head`:
+outside the view not found; for a block `b` of the view (entry `e`): index out of bounds for
+`k > len(txs)`; else the base's error if `StateAtBlockNumber(head)` fails; else the view's blocks
+older than `b` merged, then the first `k` per-transaction diffs of `b` (classes: older blocks' and
+ALL of block `b`'s). -/
+theorem stateBeforeIndexAt_layers_prefix (ops : List Op) (hops : ops.length < U64) (head b k : Nat)
+    (baseAt : Nat → Option Base) :
     let v := snapshotFor (run ops) (head + 1)
-    (head + 1 ≤ b ∧ b ≤ head + v.length) →
-    ∃ e p, e ∈ v.newestFirst ∧ e.number = b ∧ stateAt v b baseAt = some p ∧
-      stateBeforeIndexAt v b e.txs.length baseAt = .ok p :=
-  stateBeforeIndex_end (run_wf ops) (run_allOK ops) head b baseAt
+    ((head + 1 ≤ b ∧ b ≤ head + v.length) →
+      ∃ e, v.oldestFirst[b - (head + 1)]? = some e ∧ e.number = b ∧
+        stateBeforeIndexAt v b k baseAt =
+          if k > e.txs.length then .error .indexOutOfBounds
+          else match baseAt head with
+            | none => .error .noBase
+            | some base => .ok (overlayBefore (v.oldestFirst.take (b - (head + 1))) e k base b)) ∧
+    (¬ (head + 1 ≤ b ∧ b ≤ head + v.length) → stateBeforeIndexAt v b k baseAt = .error .notFound) :=
+  stateBeforeIndexAt_spec (run_wf ops hops) head b k baseAt
+
+/-- With a consistent entry (every published entry is: `entries_consistent`), the state before index
+`len(txs)` of a block is the state at that block. -/
+theorem state_before_last_index_is_state_at (older : List PreConf) (e : PreConf)
+    (he : e.diff = Diff.mergeAll e.txDiffs) (hn : e.txDiffs.length = e.txs.length)
+    (head : Base) (bn : Nat) :
+    overlayBefore older e e.txs.length head bn = overlayOf (older ++ [e]) head bn := by
+  have e1 : e.txDiffs.take e.txs.length = e.txDiffs := by rw [← hn]; exact List.take_length
+  simp only [overlayBefore, overlayOf, e1, List.map_append, List.map_cons, List.map_nil,
+    List.foldl_append, List.foldl_cons, List.foldl_nil]
+  rw [he, merge_mergeAll]
+
+/-- **Views built with `NewChain` around one entry** (the empty-block fallback of
+`Synchronizer.PreConfirmedChain`, the block under construction of `Sequencer.PreConfirmedChain`):
+state at the entry's number is the overlay of that one entry over the state at number-1 (on
+`uint64`), anything else is not found. -/
+theorem single_entry_view_state (e : PreConf) (b : Nat) (baseAt : Nat → Option Base) :
+    newChain [e] = some { nodes := [e], length := 1 } ∧
+    stateAt { nodes := [e], length := 1 } b baseAt =
+      if b = e.number then
+        match baseAt (pred64 e.number) with
+        | none => .error .noBase
+        | some base => .ok (overlayOf [e] base b)
+      else .error .notFound :=
+  ⟨rfl, single_view_state e b baseAt⟩
 
 /-! ### `ContractStorageLastUpdatedBlock` through a view (a defect of juno, see notes/C20.md)
 
@@ -205,9 +281,7 @@ i.e. through a view the last-updated block of a slot is the newest block of the 
 requested one) that writes it. `pending.State` keeps one block number for the whole merged diff, so
 it answers the REQUESTED block for every slot any block of the view writes. -/
 
-/-- What the code answers, for every overlay (any list of blocks): the requested block number for
-any slot some block of the view writes; 0 for other slots of contracts the view deploys; the base's
-answer otherwise. -/
+/-- What the code answers, for every overlay (any list of blocks). -/
 theorem lastUpdated_as_implemented (es : List PreConf) (head : Base) (b : Nat) (a k : Felt) :
     (overlayOf es head b).lastUpdated a k =
       if es.any (fun e => AMap.has e.diff.storage (a, k)) then some b
@@ -215,10 +289,9 @@ theorem lastUpdated_as_implemented (es : List PreConf) (head : Base) (b : Nat) (
       else head.lastUpd a k :=
   lastUpdated_asis es head b a k
 
-/-- `_partial`: the answer is the newest writing block only when the view does not write the slot
-at all or the newest block writing it is the requested block itself. Missing for the full
-statement: the case of a slot last written in an OLDER block of the view — there juno is wrong
-(next theorem). -/
+/-- `_partial`: right only when the view does not write the slot at all or the newest block
+writing it is the requested block itself. Missing: a slot last written in an OLDER block of the
+view — there juno is wrong (next theorem). -/
 theorem lastUpdated_is_newest_writer_partial (es : List PreConf) (head : Base) (b : Nat) (a k : Felt)
     (h : lastWriter es a k = none ∨ lastWriter es a k = some b) :
     (overlayOf es head b).lastUpdated a k = lastUpdatedSpec es head a k :=
@@ -230,9 +303,8 @@ private def luBase : Base :=
   { classHash := fun _ => some 30, nonce := fun _ => some 0, storage := fun _ _ => some 0,
     cls := fun _ => none, casm := fun _ => none, casmV2 := fun _ => none, lastUpd := fun _ _ => some 0 }
 
-/-- **Negation witness** (the replay `storage-last-updated-block-is-the-requested-block`): a view of
-blocks 11 and 12 where slot (7,1) is written in block 11 only; asked at block 12, juno answers 12,
-the newest writing block is 11. -/
+/-- **Negation witness** (replay `storage-last-updated-block-is-the-requested-block`): blocks 11
+and 12, slot (7,1) written in 11 only; asked at 12 juno answers 12, the newest writer is 11. -/
 theorem lastUpdated_is_newest_writer_fails :
     ∃ (es : List PreConf) (head : Base) (b a k : Nat),
       (overlayOf es head b).lastUpdated a k ≠ lastUpdatedSpec es head a k :=
@@ -241,8 +313,7 @@ theorem lastUpdated_is_newest_writer_fails :
 
 /-! ## 4. lookups find exactly the items of the view's blocks -/
 
-/-- **Transaction lookup is exact.** A hit is a transaction with that hash that belongs to a
-block of the view; a miss means no block of the view holds a transaction with that hash. -/
+/-- **Transaction lookup is exact.** -/
 theorem lookup_exact_tx (r : Reader) (h : Felt) :
     (∀ tx, txByHash r h = some tx → tx.hash = h ∧ ∃ e ∈ r.newestFirst, tx ∈ e.txs) ∧
     (txByHash r h = none ↔ ∀ e ∈ r.newestFirst, ∀ tx ∈ e.txs, tx.hash ≠ h) :=
@@ -261,8 +332,8 @@ theorem lookup_exact_receipt (r : Reader) (h : Felt) :
 private def wtx (h tag : Nat) (d : Diff) : WireTx :=
   { tx := { hash := h, tag := tag }, bad := false, rcpt := { txHash := h, tag := tag, events := 1 }, diff := d }
 private def blk (id : String) (txs : List WireTx := []) : Update := .block id true txs
-/-- bootstrap at 11, extend to 13, new round at the inner slot 12 (truncates 13), extend, delta,
-realign to head 11 -/
+/-- bootstrap at 11 (deploys 7), extend to 13, new round at the inner slot 12 (truncates 13),
+extend, delta, realign to head 11 -/
 private def hist : List Op :=
   [.apply (blk "a" [wtx 1 1 { deployed := [(7, 30)] }]) 11 0 11 [],
    .apply (blk "b") 12 0 11 [], .apply (blk "c") 13 0 11 [],
@@ -270,22 +341,72 @@ private def hist : List Op :=
    .apply (blk "d" [wtx 3 3 { storage := [((7, 1), 0)], replaced := [(7, 31)] }]) 13 0 11 [(9, 90)],
    .apply (.delta "d" [wtx 4 4 { nonces := [(7, 2)] }]) 13 1 11 [],
    .advance 12]
+example : hist.length < U64 := by decide
 example : (snapshotFor (run hist) 12).length = 2 := by decide
 example : (snapshotFor (run hist) 12).oldestFirst.map (·.number) = [12, 13] := by decide
 example : (snapshotFor (run hist) 11).length = 0 := by decide
 example : (txByHash (snapshotFor (run hist) 12) 4).map (·.tag) = some 4 := by decide
 example : txByHash (snapshotFor (run hist) 12) 1 = none := by decide
 example : (receiptByHash (snapshotFor (run hist) 12) 2).map (·.2) = some 12 := by decide
--- the heap model runs the same history and a view taken before the realignment still reads 3 entries
 example : ((hsnapshotFor (hrun (hist.take 6)) 11).view (hrun hist).heap).map (·.number) = [13, 12, 11] := by
   decide
--- a valid chain on a concrete canonical state (contract 7 deployed in the first block of the view)
+-- the two boundaries
+example : (computeUpdate (run [.apply (blk "m") (U64 - 1) 0 (U64 - 1) []]) (blk "m2") (U64 - 1) 0 (U64 - 1) []
+    matches .err .gap) = true := by decide
+example : (snapshotFor (run [.apply (blk "z") 0 0 0 []]) 0).oldest = 0 := by decide
+
+/-! `ValidChain` is satisfiable, and the overlay theorem has a non-trivial instance: the three
+blocks the view of `hist.take 6` holds — deploy 7; write slot and nonce; write the slot to zero,
+bump the nonce, replace the class — on the empty canonical state. -/
 private def canon0 : St :=
   { classHash := fun _ => none, nonce := fun _ => 0, storage := fun _ _ => 0,
     cls := fun _ => none, casm := fun _ => none, casmV2 := fun _ => none }
-example : ((overlayOf ((snapshotFor (run (hist.take 6)) 11).oldestFirst) canon0.reader 13).classHash 7,
-           (overlayOf ((snapshotFor (run (hist.take 6)) 11).oldestFirst) canon0.reader 13).nonce 7,
-           (overlayOf ((snapshotFor (run (hist.take 6)) 11).oldestFirst) canon0.reader 13).storage 7 1)
-          = (some 31, some 2, some 0) := by decide
+private def view6 : List PreConf := (snapshotFor (run (hist.take 6)) 11).oldestFirst
+example : view6.map (·.number) = [11, 12, 13] := by decide
+private def lit (n : Nat) (d : Diff) (c : AMap Felt Nat := []) : PreConf :=
+  { number := n, ident := "", txCount := 0, eventCount := 0, txs := [], receipts := [], txDiffs := [], diff := d,
+    classes := c }
+private def view6lit : List PreConf :=
+  [lit 11 { deployed := [(7, 30)] },
+   lit 12 { storage := [((7, 1), 5)], nonces := [(7, 1)] },
+   lit 13 { storage := [((7, 1), 0)], nonces := [(7, 2)], replaced := [(7, 31)] } [(9, 90)]]
+private theorem view6lit_valid : ValidChain canon0 view6lit := by
+  refine ⟨⟨?_, ?_, ?_, ?_⟩, ⟨?_, ?_, ?_, ?_⟩, ⟨?_, ?_, ?_, ?_⟩, trivial⟩
+  all_goals first
+    | (intro a _; rfl)
+    | (intro a h; simp [lit, AMap.has, AMap.get] at h; done)
+    | (intro a k h; simp [lit, AMap.has, AMap.get] at h; done)
+    | (intro a h; simp [lit, AMap.has, AMap.get] at h; subst h; left; decide)
+    | (intro a k h; simp [lit, AMap.has, AMap.get] at h; obtain ⟨h1, _⟩ := h; subst h1; left; decide)
+private theorem view6_valid : ValidChain canon0 view6 :=
+  validChain_congr (by decide) view6lit_valid
+/-- the theorem applied: reads through the merged overlay of the three blocks = reads of the state
+after applying them one by one, and these are the expected values -/
+example : (overlayOf view6 canon0.reader 13).classHash 7 = some 31 ∧
+          (overlayOf view6 canon0.reader 13).nonce 7 = some 2 ∧
+          (overlayOf view6 canon0.reader 13).storage 7 1 = some 0 ∧
+          (overlayOf view6 canon0.reader 13).storage 8 1 = none := by
+  have h := overlay_equals_fold canon0 view6 13 view6_valid
+  refine ⟨?_, ?_, ?_, ?_⟩
+  · rw [h.classHash]; decide
+  · rw [h.nonce]; decide
+  · rw [h.storage]; decide
+  · rw [h.storage]; decide
+
+/-- `view_state_equals_canonical_overlay` instantiated on `hist.take 6`, head 10, block 13, with the
+canonical state available at block 10 only: the call succeeds and reads the expected values -/
+example : ∃ p, stateAt (snapshotFor (run (hist.take 6)) (10 + 1)) 13
+      (fun n => if n = 10 then some canon0.reader else none) = .ok p ∧
+    p.nonce 7 = some 2 ∧ p.classHash 7 = some 31 ∧ p.storage 7 1 = some 0 := by
+  obtain ⟨p, hp, hr⟩ := view_state_equals_canonical_overlay (hist.take 6) (by decide) 10 13 canon0
+    (fun n => if n = 10 then some canon0.reader else none) (by simp) (by decide)
+    (validChain_congr (by decide) view6lit_valid)
+  refine ⟨p, hp, ?_, ?_, ?_⟩
+  · rw [hr.nonce]; decide
+  · rw [hr.classHash]; decide
+  · rw [hr.storage]; decide
+-- … and with the base unavailable (head reverted below the view) the same call fails
+example : (stateAt (snapshotFor (run (hist.take 6)) 11) 13 (fun _ => none) matches .error .noBase) = true := by
+  decide
 
 end Juno.C20.Props
